@@ -27,6 +27,7 @@ inductive Err
   | fuel                 -- the interpreter ran out of fuel (never with enough fuel)
   | ghost                -- ghost assertion violated: an instruction fetch with RETURN pending
   | guard                -- model guard: an inline body not shorter than its parent tape
+  | abort                -- `Op.abort`: an uncatchable failure (used to state soft-fork safety)
 deriving DecidableEq, Repr, Inhabited
 
 def catchable : Err → Bool
@@ -114,6 +115,7 @@ inductive Op : Type where
   | tryCatch : Bytes → Bytes → Op → Op
   | loop : Bytes → Op → Op
   | ret : Op
+  | abort : Op
 
 inductive Res where
   | ok : Frame → Shared → Res
@@ -209,6 +211,7 @@ def runOp : Nat → Op → Frame → Shared → Res
             | .ok _ sh' => runOp fuel k fr1 { sh' with returned := false }
         else .err (.user .see) sh
     | .ret => .ok (endFrame fr) { sh with returned := true }
+    | .abort => .err .abort sh
     | .sub .inline body k =>
         let (d, sh1) := copyDict sh fr.dict
         match runTape fuel { rest := body, count := getCount fr sh, fn := none, dict := d,
